@@ -87,12 +87,62 @@ type mScene struct {
 	views      map[channel.ID]*mChanView // the victim's channels at the start of the adversarial phase
 }
 
-// snapshot records the victim's view of its channels (Channel.State takes the machine mutex: it
-// must not be called on a channel that a pending Settle keeps locked).
+// signed returns the last state of one of the victim's channels that became current at the victim
+// with all signatures: the newest Enabled event the victim's persister recorded for it (encoded at
+// that moment). The catalogues and the oracle never read the victim's in-memory Channel.State():
+// a defect may corrupt it, an adversary cannot see it, and it blocks while the machine is locked.
+func (sc *mScene) signed(ch *client.Channel) *channel.State {
+	if e := sc.lastEnabled(sc.V.Idx, ch.ID()); e != nil {
+		if st := mDecodeState(e.Enc); st != nil {
+			return st
+		}
+	}
+	panic("harness: no enabled state recorded for channel of the victim")
+}
+
+func (sc *mScene) lastEnabled(who int, id channel.ID) *enabledEv {
+	for i := len(sc.w.Enabled) - 1; i >= 0; i-- {
+		if e := &sc.w.Enabled[i]; e.Who == who && e.Ch == id {
+			return e
+		}
+	}
+	return nil
+}
+
+// syncViews waits until the victim and the other end of each of its channels have made the same
+// version current (an honest Update returns at the proposer before the responder has enabled it).
+func (sc *mScene) syncViews() {
+	type pair struct {
+		id    channel.ID
+		other int
+	}
+	var ps []pair
+	if sc.led != nil {
+		ps = append(ps, pair{sc.led.ID(), sc.M.Idx})
+	}
+	if sc.ledB != nil {
+		ps = append(ps, pair{sc.ledB.ID(), sc.B.Idx})
+	}
+	for _, c := range sc.vsubs {
+		ps = append(ps, pair{c.ID(), sc.M.Idx})
+	}
+	vsched.WaitCond("await-equal-versions", func() bool {
+		for _, p := range ps {
+			a, b := sc.lastEnabled(sc.V.Idx, p.id), sc.lastEnabled(p.other, p.id)
+			if a == nil || b == nil || a.Version != b.Version {
+				return false
+			}
+		}
+		return true
+	})
+}
+
+// snapshot records the victim's view of its channels (from the Enabled stream, see signed).
 func (sc *mScene) snapshot() {
+	sc.syncViews()
 	sc.views = map[channel.ID]*mChanView{}
 	add := func(ch *client.Channel) {
-		sc.views[ch.ID()] = &mChanView{Params: ch.Params().Clone(), State: ch.State().Clone(), PeerIdx: 1 - ch.Idx()}
+		sc.views[ch.ID()] = &mChanView{Params: ch.Params().Clone(), State: sc.signed(ch), PeerIdx: 1 - ch.Idx()}
 	}
 	if sc.led != nil {
 		add(sc.led)
@@ -286,7 +336,8 @@ func (sc *mScene) setup() error {
 		if err := upd(msub, pay(int(msub.Idx()), 1, true)); err != nil {
 			return fmt.Errorf("final sub-channel update: %w", err)
 		}
-		sc.subFinal = vsub.State().Clone()
+		sc.syncViews()
+		sc.subFinal = sc.signed(vsub)
 		sc.snapshot()
 		sc.pend = append(sc.pend, pendingAuto{Kind: "settle", ID: vsub.ID(), Bals: sc.subFinal.Balances.Clone()})
 		// the victim settles the final sub-channel and waits for the parent update
